@@ -147,11 +147,36 @@ func (ex *Exec) insertVersion(t *Table, vals []Value) *RowVer {
 	return v
 }
 
-// lockRow acquires the row lock on the latest version of v; returns the version to operate on (nil if deleted)
+// repeatableRead: does the running transaction read from one transaction-wide snapshot (13.2.2)?
+func (ex *Exec) repeatableRead() bool {
+	return ex.sess != nil && ex.sess.tx != nil && ex.sess.tx.iso == IsoRepeatableRead
+}
+
+// serializationFailure: REPEATABLE READ (13.2.2): UPDATE, DELETE, SELECT FOR UPDATE / FOR SHARE "will only find target rows that
+// were committed as of the transaction start time.  However, such a target row might have already been updated (or deleted or
+// locked) by another concurrent transaction by the time it is found.  In this case, the repeatable read transaction will wait for
+// the first updating transaction to commit or roll back (if it is still in progress).  If the first updater rolls back, then its
+// effects are negated and the repeatable read transaction can proceed with updating the originally found row.  But if the first
+// updater commits (and actually updated or deleted the row, not just locked it) then the repeatable read transaction will be rolled
+// back with the message  ERROR: could not serialize access due to concurrent update" (SQLSTATE 40001, serialization_failure).
+func (ex *Exec) serializationFailure() {
+	ex.db.Stats["serialization_failures"]++
+	panic(errf("40001", "could not serialize access due to concurrent update"))
+}
+
+// lockRow acquires the row lock on the latest version of v; returns the version to operate on (nil if deleted).
+// READ COMMITTED (13.2.1): after waiting for a concurrent updater that committed, the command goes on with the updated version of
+// the row (the caller re-evaluates its WHERE on it: EvalPlanQual).  REPEATABLE READ (13.2.2): a version that a concurrent
+// transaction updated or deleted and committed is a serialization failure (see serializationFailure); a concurrent transaction that
+// only locked the row (FOR UPDATE: Locker), or that rolled back, lets the command proceed with the version it found.
 func (ex *Exec) lockRow(v *RowVer) *RowVer {
 	me := ex.sess.tx.id
+	rr := ex.repeatableRead()
 	for {
 		for v.Next != nil && v.Xmax != 0 && v.Xmax != me && ex.db.tx[v.Xmax].done && ex.db.tx[v.Xmax].committed {
+			if rr {
+				ex.serializationFailure()
+			}
 			v = v.Next
 		}
 		if v.Xmax != 0 && v.Xmax != me {
@@ -161,6 +186,9 @@ func (ex *Exec) lockRow(v *RowVer) *RowVer {
 				continue
 			}
 			if st.committed {
+				if rr {
+					ex.serializationFailure() // updated or deleted by a transaction that committed after the snapshot
+				}
 				if v.Next == nil {
 					return nil // deleted
 				}
@@ -215,7 +243,16 @@ func (ex *Exec) lockRel(rel *Rel) {
 	}
 }
 
+// readOnlyCheck: "When a transaction is read-only, the following SQL commands are disallowed: INSERT, UPDATE, DELETE, MERGE ..."
+// (SQL command SET TRANSACTION): SQLSTATE 25006 read_only_sql_transaction.
+func (ex *Exec) readOnlyCheck(cmd string) {
+	if ex.sess != nil && ex.sess.tx != nil && ex.sess.tx.readOnly {
+		panic(errf("25006", "cannot execute %s in a read-only transaction", cmd))
+	}
+}
+
 func (ex *Exec) runInsert(ins *Insert, outer *Env) *Rel {
+	ex.readOnlyCheck("INSERT")
 	t := ex.db.table(ex.sch(ins.Table.Schema), ins.Table.Name)
 	alias := ins.Table.Alias
 	if alias == "" {
@@ -314,6 +351,16 @@ func (ex *Exec) runInsert(ins *Insert, outer *Env) *Rel {
 		}
 		_ = conflictIdx
 		if conflict != nil {
+			// INSERT ... ON CONFLICT above READ COMMITTED: the conflicting row found through the unique index (which sees every
+			// committed row, whatever the snapshot) must be visible to the transaction's snapshot, or have been written by the
+			// transaction itself; otherwise 40001 "could not serialize access due to concurrent update", for DO UPDATE
+			// (nodeModifyTable.c ExecOnConflictUpdate -> ExecCheckTupleVisible) and for DO NOTHING alike (ExecInsert ->
+			// ExecCheckTIDVisible: "verify that the tuple is visible to the executor's MVCC snapshot at higher isolation levels").
+			// 13.2.1 states the READ COMMITTED side: acting on a row whose effects are not visible to the INSERT's snapshot "is
+			// only the case in Read Committed mode".
+			if ex.repeatableRead() && conflict.Xmin != ex.sess.tx.id && !ex.committedBefore(conflict.Xmin) {
+				ex.serializationFailure()
+			}
 			if ins.Conflict.Nothing {
 				continue
 			}
@@ -478,6 +525,7 @@ func (ex *Exec) appendReturning(out *Rel, ret []SelItem, t *Table, alias string,
 }
 
 func (ex *Exec) runUpdate(u *Update, outer *Env) *Rel {
+	ex.readOnlyCheck("UPDATE")
 	t := ex.db.table(ex.sch(u.Table.Schema), u.Table.Name)
 	alias := u.Table.Alias
 	if alias == "" {
@@ -567,6 +615,7 @@ func (ex *Exec) runUpdate(u *Update, outer *Env) *Rel {
 }
 
 func (ex *Exec) runDelete(d *Delete, outer *Env) *Rel {
+	ex.readOnlyCheck("DELETE")
 	t := ex.db.table(ex.sch(d.Table.Schema), d.Table.Name)
 	alias := d.Table.Alias
 	if alias == "" {
